@@ -27,17 +27,22 @@ def temps_grid(r, lo_c, hi_c):
 
 
 def gen_sweeps(r, tier):
+    """one or two sensors; every step raises one of them or both (none ever falls), so every curve over them must
+    be non-decreasing along the case. Leaves get staggered ranges so that one member is still off (0) while another
+    is already high - the region in which a wrong minimum / average shows."""
     ops = []
     for _ in range(60 if tier == "quick" else 2500):
         ops += ["#case sweep", "cv.reset"]
         leaves = []
-        lo_c, hi_c = 200, -200
-        for i in range(r.range(1, 3)):
+        nsens = r.pick([1, 1, 2])
+        span = {f"s{j}": [200, -200] for j in range(nsens)}
+        for i in range(r.range(1, 4)):
+            sid = f"s{r.below(nsens)}"
             if r.chance(0.5):
                 mn = r.range(-10, 80)
                 mx = mn + r.range(1, 40)
-                ops.append(f"cv.add id=L{i} kind=linear sensor=s min={mn} max={mx} steps=nil")
-                lo_c, hi_c = min(lo_c, mn), max(hi_c, mx)
+                ops.append(f"cv.add id=L{i} kind=linear sensor={sid} min={mn} max={mx} steps=nil")
+                lo, hi = mn, mx
             else:
                 n = r.range(1, 8)
                 ks = sorted(set(r.range(10, 95) for _ in range(n)))
@@ -48,18 +53,66 @@ def gen_sweeps(r, tier):
                     vals = sorted(r.range(0, 510) / 2.0 for _ in ks)
                 else:
                     vals = sorted(r.range(0, 2550) / 10.0 for _ in ks)   # not binary32-representable in general
-                ops.append(f"cv.add id=L{i} kind=linear sensor=s min=0 max=0 steps={streams.float_map_tok(dict(zip(ks, vals)))}")
-                lo_c, hi_c = min(lo_c, ks[0]), max(hi_c, ks[-1])
+                if r.chance(0.4):
+                    vals[0] = 0.0      # off below the first step
+                ops.append(f"cv.add id=L{i} kind=linear sensor={sid} min=0 max=0 steps={streams.float_map_tok(dict(zip(ks, vals)))}")
+                lo, hi = ks[0], ks[-1]
+            span[sid] = [min(span[sid][0], lo), max(span[sid][1], hi)]
             leaves.append(f"L{i}")
         allc = list(leaves)
-        for i in range(r.pick([0, 1, 2])):
+        for i in range(r.pick([0, 1, 1, 2, 3])):
             ms = [r.pick(allc) for _ in range(r.range(1, 4))]
             ops.append(f"cv.add id=F{i} kind=function type={r.pick(MONO_TYPES)} members={','.join(ms)}")
             allc.append(f"F{i}")
-        for t in temps_grid(r, lo_c, hi_c):
-            ops.append(f"cv.sensor id=s avg={fx(float(t))} val={fx(float(t))}")
+        grids = {}
+        for sid, (lo, hi) in span.items():
+            if lo > hi:
+                lo, hi = 20, 60
+            grids[sid] = temps_grid(r, lo, hi)
+        pos = {sid: 0 for sid in grids}
+        for sid in grids:
+            ops.append(f"cv.sensor id={sid} avg={fx(float(grids[sid][0]))} val={fx(float(grids[sid][0]))}")
+        while True:
             for c in allc:
                 ops.append(f"cv.eval id={c} now=1000")
+            movable = [sid for sid in grids if pos[sid] + 1 < len(grids[sid])]
+            if not movable:
+                break
+            for sid in ([r.pick(movable)] if r.chance(0.7) else movable):
+                pos[sid] += 1
+                t = grids[sid][pos[sid]]
+                ops.append(f"cv.sensor id={sid} avg={fx(float(t))} val={fx(float(t))}")
+    return ops
+
+
+def gen_sweeps_focus(r, tier):
+    """search-only: one function curve over two or three linear leaves with staggered ranges (one member still off while
+    another is well up), one sensor each or shared, fine grids around every leaf's lower end"""
+    ops = []
+    for _ in range(150):
+        ops += ["#case sweep", "cv.reset"]
+        nl = r.range(2, 3)
+        shared = r.chance(0.5)
+        mins = []
+        for i in range(nl):
+            mn = r.range(0, 60)
+            mins.append(mn)
+            ops.append(f"cv.add id=L{i} kind=linear sensor={'s0' if shared else f's{i}'} min={mn} max={mn + r.range(5, 40)} steps=nil")
+        ops.append(f"cv.add id=F0 kind=function type={r.pick(MONO_TYPES)} members={','.join(f'L{i}' for i in range(nl))}")
+        ops.append("cv.add id=F1 kind=function type=" + r.pick(MONO_TYPES) + " members=F0,L0")
+        sens = ["s0"] if shared else [f"s{i}" for i in range(nl)]
+        cur = {sid: (min(mins) - 1) * 1000 for sid in sens}
+        if not shared:   # the others start somewhere inside their ranges
+            for i, sid in enumerate(sens[1:], 1):
+                cur[sid] = (mins[i] + r.range(1, 30)) * 1000
+        for sid in sens:
+            ops.append(f"cv.sensor id={sid} avg={fx(float(cur[sid]))} val={fx(float(cur[sid]))}")
+        for _ in range(r.range(40, 120)):
+            for c in ("F0", "F1"):
+                ops.append(f"cv.eval id={c} now=1000")
+            sid = r.pick(sens)
+            cur[sid] += r.range(1, 400)
+            ops.append(f"cv.sensor id={sid} avg={fx(float(cur[sid]))} val={fx(float(cur[sid]))}")
     return ops
 
 
@@ -93,12 +146,15 @@ class C07(Prop):
     lean_modules = ["Fan2go.Props.C07"]
     fact_modules = ["Fan2go.Props.Trans"]
     rule = ("sweep: linear curves (min<max; non-decreasing step sets with integer, half-integer and one-decimal speeds) and "
-            "sum/maximum/minimum/average function curves nested over them, evaluated on ascending temperature grids of 1..100 "
+            "sum/maximum/minimum/average function curves nested over them over one or two sensors, each raised along its own ascending grid of 1..100 "
             "m-degree spanning below-min to above-max; request: ascending curve values through the real controller with the "
             "direct loop and non-decreasing PWM maps. non-trivial = distinct (curve shapes, function types, grid length bucket)")
     assumptions = ["step speeds that are not binary32-representable fall into the recorded known finding C07-float32-hop "
                    "(the float32 cast in the interpolation can lift a value over x.5 just below a knot)"]
     streams = [Stream("sweep", gen_sweeps, parallel=8), Stream("request", gen_requests, parallel=8)]
+
+    def search_streams(self):
+        return [(self.streams[0], gen_sweeps_focus)]
 
     def oracle(self, name, ops, go):
         out = []
